@@ -95,8 +95,11 @@ def check_case(ctx, case):
                 if via == 'list':
                     res = pe.reweight(w, members, all_configs=ac_arg)
                 elif via == 'method':
-                    res = [m.reweight(w) for m in members]      # the method has no all_configs argument
-                    ac = False
+                    if case.get('method_ac'):
+                        res = [m.reweight(w, all_configs=ac_arg) for m in members]      # documented keyword of the method
+                    else:
+                        res = [m.reweight(w) for m in members]
+                        ac = False
                 else:
                     # Corr: all members must share layout; use the first member for every timeslice scaled
                     base = members[0]
@@ -134,8 +137,11 @@ def check_case(ctx, case):
         elif k == 'reweight_bad':
             w = build(case['w'])
             o = build(case['obs'][0])
+            if case['why'] == 'cov_weight':
+                # a weight with a covariance input: that part has no configurations to pair, it must not be dropped silently
+                w = w + pe.cov_Obs(0.0, 0.01, 'cvW')
             try:
-                pe.reweight(w, [o])
+                pe.reweight(w, [o], all_configs=bool(case.get('all_configs')))
                 probs.append(('violation', 'reweight-accepts-misaligned:' + case['why'], 'no exception'))
             except Exception:
                 pass
@@ -198,6 +204,16 @@ def check_case(ctx, case):
                 d = compare_q(r, q, rtol=1e-10)
                 if d:
                     probs.append(('violation', 'merge-union', d[:3]))
+                if q.reweighted:
+                    # the flag of a merged observable behaves like that of any other: inherited, exportable
+                    if not (np.sin(r) * 2.0 + r).reweighted:
+                        probs.append(('violation', 'reweighted-flag-inherit', 'not inherited from a merged observable'))
+                    try:
+                        back = pe.input.json.import_json_string(pe.input.json.create_json_string(r, 'merged'))
+                        if not back.reweighted:
+                            probs.append(('violation', 'reweighted-flag-export', 'lost in the json export of a merged observable'))
+                    except Exception as e:
+                        probs.append(('violation', 'reweighted-flag-export', '%s: %s' % (type(e).__name__, str(e)[:120])))
             if ctx.lean is not None:
                 rr = ctx.lean.call({'op': 'combine', 'what': 'merge', 'l': [dump_obs(p) for p in parts]})
                 if ('exc' in rr) != (exc is not None):
@@ -235,11 +251,13 @@ def gen_case(ctx):
             for m, s in zip(members[:2], (s1, s2)):
                 m[:] = [{'name': c0['name'], 'idl': list(s), 'samples': [float(v).hex() for v in gen_data(rng, nprng, len(s), 'white') + 2.0]}]
         return {'kind': 'reweight', 'w': w, 'obs': members, 'all_configs': rng.random() < 0.5, 'via': rng.choice(['list', 'list', 'method', 'corr']),
-                'ac_form': rng.choice([None, None, 'np', 'int', 'npany'])}
+                'method_ac': rng.random() < 0.6, 'ac_form': rng.choice([None, None, 'np', 'int', 'npany'])}
     if k < 0.55:
         w = gen_weight(rng, nprng)
         o = gen_sub(rng, nprng, w)
-        why = rng.choice(['extra_config', 'other_chain'])
+        why = rng.choice(['extra_config', 'other_chain', 'cov_weight'])
+        if why == 'cov_weight':
+            return {'kind': 'reweight_bad', 'w': w, 'obs': [o], 'why': why, 'all_configs': rng.random() < 0.5}
         if why == 'extra_config':
             c = o[0]
             extra = max(max(x['idl']) for x in w) + 7
